@@ -172,7 +172,12 @@ def build(profile, outdir):
     run(["g++"] + objs + [bo, lib, "-o", exe, "-lpthread"])
     # 6. self-test and decoder binding
     print(run([exe, "--selftest"]).strip())
-    print(run([exe, "--bindcheck", work]).strip())
+    # the binding check translates many programs with the library's compiler: if the LIBRARY crashes there (signal), that is for the check proper to report
+    # as a verdict with a replay, not a build failure; a bindcheck that runs and finds a decoder disagreement still stops the build
+    r = subprocess.run([exe, "--bindcheck", work], stdout=subprocess.PIPE, stderr=subprocess.STDOUT, text=True)
+    if r.returncode < 0: print("build.py: bindcheck terminated by signal %d (left to the check proper)" % -r.returncode)
+    elif r.returncode != 0: sys.stderr.write(r.stdout); raise SystemExit("build.py: command failed (%d)" % r.returncode)
+    else: print(r.stdout.strip())
     print("built " + exe)
     return exe
 
